@@ -541,6 +541,35 @@ def trailer_hunt(build: Callable[[int], bytes], target: int, budget: int) -> Opt
     return None
 
 
+def refit_trailer(raw: bytes, target: int) -> bytes:
+    """the CRC-flagged PDU `raw` (complete, trailer included) with the last two octets of its entity-ID / sequence-number
+    area chosen so that its CRC-16 trailer is `target` (solved, not searched: exactly one value does it). Any value is
+    valid there, so the result is a valid PDU of the same kind, configuration and parameters."""
+    from props.c02 import crc_ccitt, fit_bits
+    hl = 4 + 2 * (((raw[3] >> 4) & 7) + 1) + ((raw[3] & 7) + 1)
+    body = bytearray(raw[:-2])
+
+    def f(v):
+        body[hl - 2], body[hl - 1] = v >> 8, v & 0xFF
+        return crc_ccitt(body)
+    f(fit_bits(f, 16, target))
+    return bytes(body) + target.to_bytes(2, "big")
+
+
+def trailer_tlv_cases(op: str, raw: bytes, rng, types: List[int], tag: str, n: int = 2) -> Iterator[Case]:
+    """`raw`: a valid CRC-flagged PDU of the independent encoder. Its trailer is made to read as the header of a TLV
+    (type T, length L) and the PDU is followed by octets that complete that "TLV" and by long continuations: decoded
+    as the PDU alone (or refused — the ops answer a documented refusal by decoding the PDU alone)"""
+    for _ in range(n):
+        t = rng.choice(types)
+        ln = rng.choice([0, 0, 0, 1, 2, 4, 8, rng.randint(1, 40)])
+        fitted = refit_trailer(raw, t << 8 | ln)
+        yield Case({"op": op, "raw": hx(fitted)}, "valid", tag=tag)
+        sfxs = [rbytes(rng, ln), rbytes(rng, ln + 2), rbytes(rng, ln) + TLV_SUFFIX, rbytes(rng, 300), bytes(2), fitted]
+        for sfx in rng.sample(sfxs, 3):
+            yield Case({"op": op, "raw": hx(fitted + sfx)}, "valid", tag=tag + "+suffix")
+
+
 def eq_variants(x: Dict[str, Any], rng, keys: List[str], mutate: Callable[[Dict[str, Any], str], Optional[Dict[str, Any]]],
                 op: str) -> Iterator[Case]:
     yield Case({"op": op, "a": x, "b": dict(x)}, "valid", tag="eq-same")
@@ -790,6 +819,12 @@ class C06Var(Prop):
             if raw is not None:
                 yield Case({"op": "eof_unpack", "raw": hx(raw)}, "valid", tag="trailer-looks-like-tlv")
                 yield Case({"op": "eof_unpack", "raw": hx(raw + TLV_SUFFIX)}, "valid", tag="trailer-looks-like-tlv")
+        for _ in range(40 if thorough else 6):
+            a = rand_conf(rng, crc=1)
+            cond = rng.choice(COND_MEMBERS)
+            fault = rng.choice([None, None, rand_fault(rng)])
+            raw = spec_eof(a, cond, rand_checksum(rng), fss_val(rng, a["large"]), fault)
+            yield from trailer_tlv_cases("eof_unpack", raw, rng, [6, 6, 6, 1, 2], "trailer-fitted-tlv")
         # setters
         for _ in range(300 if thorough else 60):
             a = rand_conf(rng)
@@ -970,6 +1005,13 @@ class C06Var(Prop):
             if raw is not None:
                 yield Case({"op": "fin_unpack", "raw": hx(raw)}, "valid", tag="trailer-looks-like-tlv")
                 yield Case({"op": "fin_unpack", "raw": hx(raw + TLV_SUFFIX)}, "valid", tag="trailer-looks-like-tlv")
+        for _ in range(40 if thorough else 6):
+            a = rand_conf(rng, crc=1)
+            cond = rng.choice(COND_MEMBERS)
+            fault = None if (cond in NO_FAULT_CONDS or rng.random() < 0.5) else rand_fault(rng)
+            rs = [rand_resp(rng) for _ in range(rng.choice([0, 0, 1, 2]))]
+            raw = spec_fin(a, cond, rng.randint(0, 1), rng.randint(0, 3), rs, fault)
+            yield from trailer_tlv_cases("fin_unpack", raw, rng, [6, 6, 1, 1, 2], "trailer-fitted-tlv")
         # setters
         for _ in range(300 if thorough else 60):
             a = rand_conf(rng)
@@ -1185,6 +1227,12 @@ class C06Var(Prop):
             if raw is not None:
                 yield Case({"op": "md_unpack", "raw": hx(raw)}, "valid", tag="trailer-looks-like-tlv")
                 yield Case({"op": "md_unpack", "raw": hx(raw + TLV_SUFFIX)}, "valid", tag="trailer-looks-like-tlv")
+        for _ in range(40 if thorough else 6):
+            a = rand_conf(rng, crc=1)
+            opts = rng.choice([None, None, rand_options(rng, 1), rand_options(rng, 2)])
+            raw = spec_md(a, bool(rng.randint(0, 1)), rng.choice(CHECKSUM_TYPES), fss_val(rng, a["large"]), rand_name(rng),
+                          rand_name(rng), opts)
+            yield from trailer_tlv_cases("md_unpack", raw, rng, [0, 1, 2, 4, 5, 6], "trailer-fitted-tlv", n=3)
         # setters
         for _ in range(300 if thorough else 60):
             a = rand_conf(rng)
